@@ -69,6 +69,10 @@ CHECKS = {
          "duration_trunc/round/round_up on NaiveDateTime and DateTime<FixedOffset> must return exactly floor/ceil/nearest-ties-up multiples of the span on the wall-clock stamp with the offset kept, be idempotent while the result stays inside the window, and report DurationExceedsLimit / TimestampExceedsLimit exactly for the three stated causes, never panicking (incl. headroom wall clocks); round_subsecs/trunc_subsecs on NaiveTime, NaiveDateTime and DateTime for all digit counts with carry. Leap-second operands: no panic, valid values, sub-second idempotence only.",
          "Trusted base: i128 div_euclid arithmetic (harness/src/props/c17.rs).",
          "DESIGN.md section 3 C17"),
+ "C18": ("stateful generation: histories = vec(op) over set/unset TZ (absolute path, :path, zone name, :name, POSIX rule, empty, garbage, missing file), waits on both sides of 1 s, conversions in both directions on the long-lived thread and on fresh threads (free sequences + scenario templates); each history runs in its own child process; an interpreter with the R-zone models of every source is the oracle",
+         "Every conversion in every history must be answered entirely by one zone: the zone the environment names now when the conversion runs on a new thread or at least 1 s (+60 ms margin) after the last change, otherwise any zone that was in force during the last second. Custom zone files have pairwise different offsets before/after a common transition so a single answer identifies the zone; wall-clock probes lie inside their gaps/folds so a mixed answer is visible. The wall clock is only a stimulus: inside the window both answers are accepted, so jitter cannot raise an alarm. The whole history shrinks as one value (bounded shrink budget because each run costs real sleeps).",
+         "Trusted base: R-zone and the 60-line interpreter in harness/src/props/c18.rs. Sandbox limit: /etc/localtime is Etc/UTC, so the system-zone and UTC fallbacks coincide. Races between set_var and a concurrent conversion are outside this technique (and outside safe Rust's contract for set_var).",
+         "DESIGN.md section 3 C18"),
  "C19": ("exhaustive enumeration (7 weekdays, 12 months, 128x128 sets, 128x7x128 iteration interleavings, all name/letter-case masks, all integers in +/-70000 and 2^k neighbourhoods) + proptest integers/strings, against modular arithmetic and a bit/deque set model",
          "The finite part (cycles, numbering, all pairs of weekday sets, every front/back interleaving of every set from every start day, every letter-case variant, prefix and one-letter extension of every name) is enumerated completely on every run; numeric conversions are checked for every FromPrimitive entry point on enumerated neighbourhoods and random i64/u64 values biased to values congruent to valid numbers modulo 2^8/2^16/2^32; strings by mutation and arbitrary Unicode including case-folding look-alikes.",
          "Trusted base: literal name tables and modular arithmetic in harness/src/props/c19.rs.",
